@@ -1,4 +1,4 @@
-import Chewing.Proofs.EditorLinkBound2
+import Chewing.Proofs.EditorLinkBound3
 /-!
 # C05, second half: "the buffer stays bounded" — in EVERY reachable state (round 2, `linkH`)
 
@@ -33,6 +33,10 @@ configured maximum", for every layout model, engine and lookup strategy).  The l
 the range `≤ B` after it was lowered by an option call — that is why the bound is the largest threshold of the
 history, not the current one.  Inside a step, where the conversion runs, at most `B + max 2 K` symbols (`K` = longest
 easy-symbol expansion of the table the editor was created with): `conversions_are_short`.
+
+**The unrestricted statement now holds** (`bounded_everywhere_full : BoundedEverywhereFull`, via
+`buffer_bounded_all_operations`): every history of valid operations with thresholds `≤ B`, no `SafeAlong` ⇒
+`len ≤ B + 1` in every reachable state, `≤ B` while a syllable is being entered.
 
 **What remains false** (`bounded_editing_full_refuted`): `len ≤ B` in `Entering` after every OPERATION — the API call
 `cancel_selecting()` (not a key) over the simple engine's over-full one-word list leaves `B + 1` symbols in
@@ -184,6 +188,37 @@ theorem cancel_then_key_within : ∃ e', (simpleEditor 0).run toyEnv
       [.key keyJ, .key keyX, .cancelSelecting, .key keyJ] = .ok e' ∧ e'.state = .enteringSyllable ∧
       e'.shared.options.autoCommitThreshold = 0 ∧ e'.shared.com.len = 0 := by
   refine ⟨_, rfl, rfl, rfl, ?_⟩; decide
+
+/-! ## the unrestricted statement: every operation, no side condition on the API calls -/
+
+theorem thrOp_of_thrLe {B : Nat} {ops : List (Op L)} (h : ThrLe B ops) : ∀ op ∈ ops, ThrOp B op := by
+  intro op hop
+  cases op <;> first | trivial | skip
+  exact h _ hop
+
+/-- **every history of valid operations, whatever the API calls** (only: thresholds `≤ B`): the run returns and in
+    the state reached `len ≤ B + 1`, and `len ≤ B` while a syllable is being entered (`cap1`); C01's invariant and
+    the configuration are kept.  Proofs/EditorLinkBound3.lean: the invariant `Within1` needs no `SafeAlong` since
+    the repair — whatever a closed list leaves over is auto-committed by the next absorbed key -/
+theorem buffer_bounded_all_operations {B K : Nat} (hE : EnvOK env G) (sh : Shared D L)
+    (hg : G sh.dict) (hcom : sh.com = {}) (hpp : 0 < sh.options.candidatesPerPage) (hsym : SymWF sh.symSel)
+    (hc : Cfg B K sh) (ops : List (Op L)) (hv : ∀ op ∈ ops, OpValid op) (ht : ThrLe B ops) :
+    ∃ e', ({ shared := sh, state := .entering } : Editor D L).run env ops = .ok e' ∧ SafeInv env G e' ∧
+      Within1 B K e' ∧ e'.shared.com.len ≤ cap1 B e'.state ∧ e'.shared.com.len ≤ B + 1 := by
+  have hw : Within1 B K ({ shared := sh, state := .entering } : Editor D L) :=
+    ⟨hc, by show sh.com.len ≤ B + 1; rw [hcom]; exact Nat.zero_le _⟩
+  obtain ⟨e', h, hi, hw'⟩ := within1_run_linked hE ops _ (initial_safe sh hg hcom hpp hsym) hw hv (thrOp_of_thrLe ht)
+  exact ⟨e', h, hi, hw', hw'.len, Nat.le_trans hw'.len (cap1_le B _)⟩
+
+/-- **the property as one would word it holds** (it was refuted before the repair, by keys alone:
+    `bounded_everywhere_full_refuted` of round 2, now `fuzzy_history_repaired`) -/
+theorem bounded_everywhere_full : BoundedEverywhereFull := by
+  intro D L env G hE sh hg hcom hpp hsym B hB ops hv ht e' hr
+  obtain ⟨K, hK⟩ := abbrLe_exists sh.abbr
+  obtain ⟨e2, h2, _, _, _, hl⟩ := buffer_bounded_all_operations (K := K) hE sh hg hcom hpp hsym ⟨hB, hK⟩ ops hv ht
+  rw [hr] at h2
+  injection h2 with h2
+  rw [h2]; exact hl
 
 /-! ## what still does not hold: the limit itself, between an API call and the next key -/
 
